@@ -73,6 +73,13 @@ BlockB == { Case("B", Ext(cr, cr.ident, "::m::Thing", "Thing", Req1, TRUE, TRUE,
             cr \in Crates, k \in CfgKinds, rn \in Renames, pol \in {"generate", "allow", "deny"},
             ps \in ParamLists, def \in {"Ext", "Thing"} }
 
+(* definition names that are a proper suffix / prefix / superstring of the external type's name
+   (the wrapper decision compares names; only equality means "use directly") *)
+BlockB2 == { Case("B", Ext(Plain, "mycrate", "::m::MyThing", "MyThing", Req1, TRUE, TRUE, << >>),
+                  CfgOf(k, NoRename), pol, def) :
+             k \in CfgKinds, pol \in {"generate", "allow", "deny"},
+             def \in {"Thing", "MyThing", "My", "MyThingy"} }
+
 Malformed == {"missing-version", "bad-requirement", "no-separator", "wrong-head", "hyphen-head"}
 ExtBad(kind, cr) ==
     CASE kind = "missing-version" -> Ext(cr, cr.ident, "::m::Thing", "Thing", Req1, TRUE, FALSE, << >>)
@@ -86,7 +93,7 @@ BlockC == { Case("C", ExtBad(kind, cr), CfgOf(k, NoRename), pol, "Ext") :
 (* hyphen-head on a crate without a hyphen is well formed: keep only real defects *)
 BlockC2 == { x \in BlockC : ~WellFormedExt(x.ext) }
 
-Cases == BlockA \cup BlockB \cup BlockC2
+Cases == BlockA \cup BlockB \cup BlockB2 \cup BlockC2
 
 Init == c \in Cases
 Next == UNCHANGED c
